@@ -1,3 +1,4 @@
+// VERIF-UNIT-FLAGS: -fno-access-control
 // Driver TU: forces emission of the inline QSBR per-thread entry points (IR is taken with -fno-access-control; the wrappers only forward).
 #include "global.hpp"
 #include "qsbr.hpp"
